@@ -85,11 +85,16 @@ segments reported as ending, and the active segment just below `pt` -/
 def handSegs (pt : Pt) (st : St) : List Nat := st.incoming ++ (st.prevActive pt).toList
 
 /-- ownership as `process_next_pt` uses it, checked in the state returned by `next_point` for the point `pt`: every
-ending segment is reported once and is not the segment below; the chain references of these segments are in range
-and pairwise different; a live chain referenced as `help` has its tip strictly before `pt` -/
+ending segment is reported once and is not the segment below; the segment below is not reported as starting; the chain
+references of these segments (and the `helper_chain` of the segment below) are in range and pairwise different; a live
+chain referenced as `help` has its tip strictly before `pt` -/
 def handsB (pt : Pt) (st : St) : Bool :=
   let R := refsOf st (handSegs pt st)
   decide (handSegs pt st).Nodup &&
+  (st.prevActive pt).all (fun b => !st.outgoing.contains b &&
+    (match st.infoOf b with
+     | some bi => (match bi.helperChain with | some k => decide (k < st.chains.length) | none => true)
+     | none => true)) &&
   R.all (fun r => decide (r.2.2 < st.chains.length)) &&
   R.all (fun r => r.2.1 == 0 ||
     (match (chainAt st r.2.2).bind List.getLast? with
